@@ -68,6 +68,7 @@ type rigConf struct {
 	Compression  int           `json:"compression"`
 	SlowRead     bool          `json:"slow_read,omitempty"` // source file reads take time (see storeWrap.GetOpener)
 	DeleteDelay  time.Duration `json:"delete_delay,omitempty"` // tag option delete-delay: a confirmed file is deleted only when its modification time is this old (then by a later scan)
+	OpenEvents   bool          `json:"open_events,omitempty"`   // every opening of a source file (hashing, encoding) is an environment action (where a stop can arrive)
 	ReverseParts bool          `json:"reverse_parts,omitempty"` // the receiver's partial listing reports the parts of each file in descending order (no order is promised)
 	DamageFirst  bool          `json:"damage_first,omitempty"` // the first transmission of every part arrives damaged (every file fails validation once)
 	// eligibility (C17)
@@ -765,6 +766,13 @@ func (s *storeWrap) Sync(f sts.File) (sts.File, error) {
 // encoding their payloads instead of running each request in one go.
 func (s *storeWrap) GetOpener() sts.Open {
 	open := s.FileSource.GetOpener()
+	if s.r.conf.OpenEvents {
+		plain := open
+		open = func(f sts.File) (sts.Readable, error) {
+			s.r.common(s.gen, "open", f.GetName(), genericMenu)
+			return plain(f)
+		}
+	}
 	if !s.r.conf.SlowRead {
 		return open
 	}
